@@ -455,7 +455,7 @@ def make_run(seed, tier, index, prop="C06"):
 # ---------------------------------------------------------------------------------------------
 # cornerstone schedules: short, systematic scenarios; only points/times/containers are seeded
 # ---------------------------------------------------------------------------------------------
-VARIANTS = ["plain", "b_between", "b_fails", "a_aborted", "a_retry"]
+VARIANTS = ["plain", "b_between", "b_fails", "a_aborted", "b_aborted", "a_retry"]
 
 
 def cornerstone_list(tier):
@@ -468,6 +468,10 @@ def cornerstone_list(tier):
         n = len(f.pool)
         pairs = [(p, q) for p in range(n) for q in range(n)]
         cap = 16 if f.cost != "cheap" else 40
+        is_cog = f.name.startswith("cog")
+        if is_cog:
+            cap = 10      # twenty structurally identical closed-form modules: a smaller share each
+        plain_only = []
         if len(pairs) > cap:
             # the informative pairs first: parameter sets that differ in exactly one parameter (a cache keyed on too few
             # parameters is visible only there), then the diagonal (same parameters, two objects), then a strided rest
@@ -477,7 +481,6 @@ def cornerstone_list(tier):
             one = [pq for pq in pairs if ndiff(pq) == 1]
             diag = [pq for pq in pairs if pq[0] == pq[1]]
             rest = [pq for pq in pairs if pq not in one and pq not in diag]
-            # interleave directions so that both (p,q) and (q,p) of the first one-difference pairs get in
             chosen = []
             for pq in one:
                 if len(chosen) >= (cap * 3) // 4:
@@ -500,13 +503,26 @@ def cornerstone_list(tier):
                 if k > 4 * cap:
                     break
             pairs = chosen
+            # beyond the cap, with the plain variant only: every parameter set next to the family's first one, both ways
+            # (one parameter forgotten in a cache key must meet its one-difference partner whatever the pool size)
+            plain_only = [d for pq in one if 0 in pq for d in (pq, (pq[1], pq[0])) if d not in chosen]
         for (p, q) in pairs:
             for v in VARIANTS:
                 if f.cost != "cheap" and v in ("b_fails",):
                     continue
                 if v == "a_retry" and (p + q) % 2:
                     continue        # half of the pairs: the retry scenario is about A alone
+                if is_cog and v in ("b_fails", "a_retry"):
+                    continue
                 out.append((f.name, p, q, v))
+        if len(f.pool) ** 2 > cap:
+            seen_plain = set()
+            for (p, q) in plain_only:
+                if (p, q) not in seen_plain:
+                    seen_plain.add((p, q))
+                    out.append((f.name, p, q, "plain"))
+        for p in range(n):
+            out.append((f.name, p, p, "two_times"))   # every parameter set: one object used at two times, then a fresh twin
     # cross-family pairs inside one package: families that share a Python package share modules, base classes and
     # module-level state (radshocks' function table, Rod1D's class body behind the planar sandwiches, ep_riemann/utils)
     by_pkg = {}
@@ -519,10 +535,12 @@ def cornerstone_list(tier):
         if len(fams) < 2:
             continue
         combos = [(0, 0)] if len(fams) > 4 else [(0, 0), (0, 1), (1, 0), (1, 1)]
-        for fa in fams:
-            for fb in fams:
+        for ia, fa in enumerate(fams):
+            for ib, fb in enumerate(fams):
                 if fa is fb:
                     continue
+                if len(fams) > 12 and (ia + ib) % 3:
+                    continue      # the cog package: a third of the ordered module pairs
                 for (p, q) in combos:
                     if p >= len(fa.pool) or q >= len(fb.pool):
                         continue
@@ -562,7 +580,18 @@ def make_cornerstone(seed, tier, k, prop="C06"):
     if b is not None and b.alive:
         pb, tb, lb = g.request_points(b)
         g.call_op(1, b, pb, tb, lb)
+        if variant == "b_aborted":
+            # B's call fails part-way (dependency failure, abort or allocation failure) between two calls of A
+            intents.append({"step": len(g.ops) - 1, "kinds": rng.sample(["dep", "abort", "oom"], 3), "u": fhex(rng.random() ** 2),
+                            "mode": "before", "exc": rng.choice(["RuntimeError", "ValueError"])})
     g.call_op(0, a, pa, ta, la)
+    if variant == "two_times":
+        ps_a = fam.pool[a.pi]
+        other = [t for t in ps_a.times if fhex(t) != ta]
+        t2 = fhex(other[0]) if other else fhex(float.fromhex(ta) * 0.5 if float.fromhex(ta) != 0 else 0.25)
+        g.call_op(0, a, pa, t2, la)
+        g.call_op(0, a, pa, ta, la)
+        g.call_op(0, a, pa, t2, la)
     if variant == "a_retry":
         # a solution for one time exists; a call at a NEW time is interrupted; the caller retries at that new time
         t_new = fhex(float.fromhex(ta) * 0.5 if float.fromhex(ta) != 0 else 0.25)
